@@ -80,6 +80,11 @@ def make_backends(d):
     register_parallel_backend("rec_threading", rec(ThreadingBackend))
     register_parallel_backend("rec_loky", rec(LokyBackend))
     register_parallel_backend("rec_multiprocessing", rec(MultiprocessingBackend))
+    # the built-in pools driven through the legacy protocol (the caller fetches the results), as joblib's own
+    # test_retrieval_context does with a ThreadingBackend subclass
+    for nm, base in (("threading", ThreadingBackend), ("multiprocessing", MultiprocessingBackend)):
+        cls = rec(base); cls.supports_retrieve_callback = False
+        register_parallel_backend("rec_legacy_" + nm, cls)
 
 
 def one_run(cfg, d, runid):
@@ -114,7 +119,7 @@ def one_run(cfg, d, runid):
                 i = q.i; q.i += 1
                 log(lp, ev="Pull", c=tag, i=i, th=me)
                 return delayed(task)(i, tag, d, fail, cfg.get("transport") if callno == 0 else None, nj == 1)
-        log(lp, ev="CallStart", c=tag, n=n, mode=MODES[cfg["mode"]], nj=nj, maxb=cfg["bs"], pre=pre, bound=pre + 2 * nj * cfg["bs"], slack=3, ticks=-1, serial=True)
+        log(lp, ev="CallStart", legacy="legacy" in cfg["backend"], c=tag, n=n, mode=MODES[cfg["mode"]], nj=nj, maxb=cfg["bs"], pre=pre, bound=pre + 2 * nj * cfg["bs"], slack=3, ticks=-1, serial=True)
         stop = threading.Event()
 
         def opener():
